@@ -10,7 +10,7 @@ import ast
 from sa import fd
 from sa.model import AnalysisError, walk_no_nested, norm, mangle, call_name, is_self_call
 from sa.util import (contains, fact_call, module_resolver, ClassGraph, fact_atom, decorator_names, self_calls, attr_calls, eq_const_fact, raise_name,
-                     const_value, bound_arg, attr_writes)
+                     const_value, bound_arg, attr_writes, single_def_value)
 from sa.consteval import TOP
 from .roles import ClientRoles
 
@@ -55,6 +55,53 @@ def authenticator(R, rule):
         if len(mechs) >= 2:
             return f
     raise AnalysisError(rule, "cannot identify the authenticator (mechanism dispatcher) in Client")
+
+
+def selection_feeders(R, auth):
+    """Methods whose result a caller of the authenticator hands to it (`m = self.usable(authmech); self.auth(l, p, a, m)`): part of the
+    mechanism selection although outside the dispatcher.  -> [(caller Func, helper Func, helper call, position in the auth call)]"""
+    out = []
+    for n, f in R.methods.items():
+        if f is auth:
+            continue
+        for c in self_calls(f, auth.name):
+            for i, a in enumerate(list(c.args) + [k.value for k in c.keywords]):
+                v = a
+                if isinstance(a, ast.Name) and a.id not in f.params:
+                    v = single_def_value(f, a.id)
+                if isinstance(v, ast.Call) and isinstance(v.func, ast.Attribute) and isinstance(v.func.value, ast.Name) \
+                        and v.func.value.id == "self":
+                    h = R.methods.get(v.func.attr) or R.methods.get(mangle(R.cls.name, v.func.attr))
+                    if h is not None:
+                        out.append((f, h, v, i))
+    return out
+
+
+def selection_slice(R, auth):
+    """The caller computes the authenticator's candidates in line (`wanted = ...; ms = [m for m in wanted if ...]; return
+    self.auth(l, p, a, ms)`): the backward slice of that argument over the caller's top-level statements.
+    -> (caller Func, [stmts], local name, position in the auth call, auth call) or None"""
+    for n, f in R.methods.items():
+        if f is auth:
+            continue
+        for c in self_calls(f, auth.name):
+            st = c
+            while getattr(st, "_parent", None) is not None and st._parent is not f.node:
+                st = st._parent
+            if st not in f.node.body:
+                continue
+            for i, a in enumerate(c.args):
+                if not (isinstance(a, ast.Name) and a.id not in f.params):
+                    continue
+                need, out = {a.id}, []
+                for prev in reversed(f.node.body[:f.node.body.index(st)]):
+                    stores = {x.id for x in ast.walk(prev) if isinstance(x, ast.Name) and isinstance(x.ctx, ast.Store)}
+                    if stores & need:
+                        out.append(prev)
+                        need |= {x.id for x in ast.walk(prev) if isinstance(x, ast.Name) and isinstance(x.ctx, ast.Load)}
+                if out:
+                    return f, list(reversed(out)), a.id, i, c
+    return None
 
 
 def mechanisms(R):
@@ -471,6 +518,28 @@ def run(ctx):
     reads_live = any(isinstance(x, ast.Attribute) and x.attr == cap_attr for x in ast.walk(auth.node)) or any(
         any(isinstance(x, ast.Attribute) and x.attr == cap_attr for x in ast.walk(R.methods[m].node))
         for m in G.edges[auth.name] if m in R.methods)
+    sl_ = selection_slice(R, auth)
+    if sl_ is not None:
+        reads = [x for st_ in sl_[1] for x in ast.walk(st_) if (isinstance(x, ast.Attribute) and x.attr == cap_attr) or (
+            isinstance(x, ast.Call) and is_self_call(x) and x.func.attr in R.methods and any(
+                isinstance(y, ast.Attribute) and y.attr == cap_attr for y in ast.walk(R.methods[x.func.attr].node)))]
+        tcalls = self_calls(sl_[0], tls.name)
+        if reads and all((t.lineno, t.col_offset) < (x.lineno, x.col_offset) for t in tcalls for x in reads):
+            reads_live = True
+        elif reads:
+            ctx.violation("A6", sl_[0], "selection-before-upgrade", "%s computes the usable mechanisms before the TLS upgrade" % sl_[0].qualname,
+                          node=reads[0], witness="the SASL mechanism is chosen from the capabilities announced before the handshake")
+    for caller_, h_, hc_, _i in selection_feeders(R, auth):
+        # a helper computing the candidates for the authenticator: it reads the map, and does so after the upgrade
+        if any(isinstance(x, ast.Attribute) and x.attr == cap_attr for x in ast.walk(h_.node)) or any(
+                any(isinstance(x, ast.Attribute) and x.attr == cap_attr for x in ast.walk(R.methods[m].node))
+                for m in G.edges[h_.name] if m in R.methods):
+            tcalls = self_calls(caller_, tls.name)
+            if all((t.lineno, t.col_offset) < (hc_.lineno, hc_.col_offset) for t in tcalls):
+                reads_live = True
+            else:
+                ctx.violation("A6", caller_, "selection-before-upgrade", "%s computes the usable mechanisms before the TLS upgrade" % h_.qualname,
+                              node=hc_, witness="the SASL mechanism is chosen from the capabilities announced before the handshake")
     if reads_live:
         ctx.holds("A6", "%s reads the capability map at selection time" % auth.qualname)
     else:
